@@ -119,4 +119,21 @@ def ascAllMembers : List (Bytes × JV) → Bool
   | (_, v) :: r => ascAll v && ascAllMembers r
 end
 
+mutual
+/-- well-formed values: what `Map`'s representation invariant and `Number`'s "always finite"
+    guarantee — every object has strictly ascending keys (default build, `po = false`) or
+    pairwise distinct keys (`preserve_order`), and no float is a NaN. -/
+def WF (po : Bool) : JV → Prop
+  | .num (.float b) => isNaNBits b = false
+  | .arr xs => WFList po xs
+  | .obj m => (if po then (m.map (·.1)).Nodup else Asc (m.map (·.1))) ∧ WFMembers po m
+  | _ => True
+def WFList (po : Bool) : List JV → Prop
+  | [] => True
+  | x :: xs => WF po x ∧ WFList po xs
+def WFMembers (po : Bool) : List (Bytes × JV) → Prop
+  | [] => True
+  | (_, v) :: r => WF po v ∧ WFMembers po r
+end
+
 end SJ.Spec.ValueEq
